@@ -13,12 +13,16 @@
 (* must be the next element of want.  TLC's search over the placements of  *)
 (* the Arrive steps decides whether some arrival order explains the run.   *)
 (* An output produced by a call that overlaps an Unsubscribe may be cut.   *)
+(* With SyncRet (MultiLin_sync.cfg, C08) the return of a call additionally *)
+(* requires that the outputs of ITS arrival have been received: the        *)
+(* operators deliver on the caller's goroutine, also under contention.     *)
 (***************************************************************************)
 EXTENDS MultiDef, Json
 
 Trace == ndJsonDeserialize("trace.ndjson")
 Starts == {i \in 1..Len(Trace) : Trace[i].e = "hdr"}
 S == 1..3
+CONSTANT SyncRet   \* TRUE: the C08 clause - when the call of a producer returns, the outputs its arrival gave rise to have been received
 
 VARIABLES l, mm, st, closed, call, want, gotn, unsubbing
 vars == <<l, mm, st, closed, call, want, gotn, unsubbing>>
@@ -30,7 +34,7 @@ Init == \E i \in Starts :
    /\ l = i + 1 /\ mm = [op |-> Trace[i].s, g |-> Trace[i].s, k |-> Trace[i].v]
    /\ st = [St0 EXCEPT !.live = 1..Trace[i].v, !.subs = 1..Trace[i].v, !.won = IF Trace[i].s = "WindowWhen" THEN 1 ELSE 0] /\ closed = FALSE
    /\ call = [s \in S |-> Idle] /\ gotn = 0
-   /\ want = IF Trace[i].s = "WindowWhen" THEN <<[k |-> "N", v |-> 1001, fg |-> FALSE]>> ELSE <<>>      \* the first window is handed out by Subscribe
+   /\ want = IF Trace[i].s = "WindowWhen" THEN <<[k |-> "N", v |-> 1001, fg |-> FALSE, p |-> 0]>> ELSE <<>>      \* the first window is handed out by Subscribe
    /\ unsubbing = FALSE
 
 \* integer encoding of an output value (the harness uses the same): tuples / buffers of small integers
@@ -47,12 +51,14 @@ Arrive(s) ==
    /\ call[s].st = "inv"
    /\ LET n == [k |-> call[s].k, v |-> call[s].v, c |-> {}]
           a == ArriveF(mm, st, closed, s, n)
-          outs == [j \in 1..Len(a.out) |-> [k |-> a.out[j].k, v |-> IF a.out[j].k = "N" THEN Enc(a.out[j].v) ELSE IF a.out[j].k \in {"I", "IC", "IE"} THEN a.out[j].v ELSE 0, fg |-> unsubbing]]
+          outs == [j \in 1..Len(a.out) |-> [k |-> a.out[j].k, v |-> IF a.out[j].k = "N" THEN Enc(a.out[j].v) ELSE IF a.out[j].k \in {"I", "IC", "IE"} THEN a.out[j].v ELSE 0, fg |-> unsubbing, p |-> s]]
       IN /\ st' = a.st /\ closed' = a.closed /\ want' = want \o outs
    /\ call' = [call EXCEPT ![s].st = "lin"]
    /\ UNCHANGED <<l, mm, gotn, unsubbing>>
 
 Ret == /\ Is("ret") /\ call[Ev.p].st = "lin"
+       \* C08: Next returns after downstream is done - whatever output the notification gave rise to has been delivered by then
+       /\ SyncRet => \A j \in (gotn + 1)..Len(want) : want[j].p = Ev.p => want[j].fg
        /\ call' = [call EXCEPT ![Ev.p] = Idle]
        /\ l' = l + 1 /\ UNCHANGED <<mm, st, closed, want, gotn, unsubbing>>
 
